@@ -217,6 +217,18 @@ def check_proofs(prop, cfg):
     return res
 
 
+def run_coqchk(props_file):
+    """independent re-check of the compiled cone; -> (ok, summary)"""
+    mod = "Okv." + props_file[:-2].replace("/", ".")
+    rc, out = run(["coqchk", "-silent", "-o", "-Q", ".", "Okv", mod], cwd=COQ, timeout=2400)
+    m = re.search(r"\* Axioms:(.*?)\n\s*\n\* Constants", out, re.S)
+    axioms = m.group(1).strip() if m else "?"
+    bad = [x for x in ("type-in-type: <none>", "unsafe (co)fixpoints: <none>", "positivity is assumed: <none>") if x not in out]
+    names = [] if axioms == "<none>" else re.findall(r"^\s*([\w.']+)", axioms, re.M)
+    ok = rc == 0 and not bad and all(n in AXIOM_ALLOW for n in names)
+    return ok, "coqchk %s: axioms %s%s" % (mod, axioms.replace("\n", " "), "" if not bad else " UNSAFE " + ",".join(bad))
+
+
 def build_harness():
     """-> (status, log): status in ok | repo_broken | harness_broken"""
     os.makedirs(BUILD, exist_ok=True)
@@ -333,6 +345,14 @@ def check(prop, cfg, tier, seed, replay=None):
     pr = check_proofs(prop, cfg)
     log("[%s] proofs: %d/%d discharged%s" % (prop, pr["discharged"], pr["obligations"],
                                             "" if pr["ok"] else " -- BROKEN: %s" % pr["broken"]))
+    coqchk_line = None
+    if tier == "thorough" and pr["ok"] and not replay:
+        ok, coqchk_line = run_coqchk(cfg["props"])
+        log("[%s] %s" % (prop, coqchk_line))
+        if not ok:
+            pr["ok"] = False
+            pr["broken"] = coqchk_line
+            pr["discharged"] = 0
     # 2. harness against the current tree
     status, blog = build_harness()
     if status == "repo_broken":
@@ -411,6 +431,8 @@ def check(prop, cfg, tier, seed, replay=None):
           "hand-written Gallina model tied to /repo by the correspondence run (harness/, Run/Classify_%s.v, lib/okv.py)" % prop]
     for name, axs in pr["axioms"].items():
         tb.append("%s: %s" % (name, "closed under the global context" if not axs else "axioms " + ", ".join(axs)))
+    if coqchk_line:
+        tb.append(coqchk_line)
     tb.extend(cfg.get("trusted", []))
     ev = {
         "property_id": prop, "tier": tier, "seed": seed, "level": "proof",
